@@ -829,6 +829,25 @@ def step (m : Cqm) : Op → Res
   | .viewSetWeight l weight penalty => m.viewSetWeight l weight penalty
   | .deepcopy => (m, none)
 
+/-- the Python model object after it has been `clear()`ed -/
+def ModelIn.cleared : ModelIn := { vars := [], info := [], lin := [], quad := [], off := 0 }
+
+/-- what is left of the model *object* handed to `add_constraint_from_model(…, copy)`: with `copy=False` the base object
+    is moved into the CQM and the source is `clear()`ed — as soon as the label check and the compatibility loop have
+    passed, so also when `set_weight` raises afterwards; otherwise the source keeps its value -/
+def sourceAfterAdd (m : Cqm) (mi : ModelIn) (label : Label) (copy : Bool) : ModelIn :=
+  if copy || decide (label ∈ m.clabels) || m.conflicts mi then mi else ModelIn.cleared
+
+/-- the source model object after a model-taking call (`none`: the call takes no model) -/
+def sourceAfter (m : Cqm) : Op → Option ModelIn
+  | .setObjectiveModel mi => some mi                                   -- always copied
+  | .addConstraintModel mi _ _ label copy _ _ => some (m.sourceAfterAdd mi label copy)
+  | .addDiscreteModel mi label copy chk =>         -- every error of the discrete forms comes before the move
+    some (if (m.addDiscreteModel mi label copy chk).2.isNone then m.sourceAfterAdd mi label copy else mi)
+  | .addDiscreteComparison mi sense rhs label copy chk =>
+    some (if (m.addDiscreteComparison mi sense rhs label copy chk).2.isNone then m.sourceAfterAdd mi label copy else mi)
+  | _ => none
+
 /-- the model after a history (exceptions are caught by the caller, the state they leave stays) -/
 def run (m : Cqm) (ops : List Op) : Cqm := ops.foldl (fun m op => (m.step op).1) m
 
